@@ -65,6 +65,13 @@ def _gen_of(r):
     elem = r.choice(ELEMS)
     typed = r.random() < 0.8
     desc = {'k': r.choice(['SEQOF', 'SETOF']), 'tags': [], 'of': elem}
+    start = None
+    if typed and r.random() < 0.2:
+        # a SIZE-constrained collection, in a fifth of these obtained from the decoder instead of built by hand
+        lo = r.choice([1, 1, 2])
+        desc['con'] = {'size': [lo, lo + r.choice([0, 2, 5])]}
+        if r.random() < 0.5 and desc['k'] == 'SEQOF':       # (DER reorders the members of a SET OF)
+            start = [_elem_value(r, elem) for _ in range(lo)]
     ops = []
     n_ops = r.choice([5, 12, 30])
     mlen = 0      # rough model length for argument generation only
@@ -149,7 +156,10 @@ def _gen_of(r):
             if bad in ('getitem_far', 'setitem_far') and not allow_far:
                 bad = r.choice(['getitem_neg_far', 'setitem_bad_type', 'index_absent'])
             ops.append([bad, r.choice([1, 2, 5])])
-    return {'check': ID, 'kind': 'OF', 'desc': desc, 'typed': typed, 'ops': ops}
+    pl = {'check': ID, 'kind': 'OF', 'desc': desc, 'typed': typed, 'ops': ops}
+    if start is not None:
+        pl['start_decoded'] = start
+    return pl
 
 
 def _gen_dyn(r):
@@ -157,6 +167,11 @@ def _gen_dyn(r):
     documented way to grow is assigning position len."""
     elems = [ELEMS[0], ELEMS[1], ELEMS[2]]
     ops = []
+    if r.random() < 0.15:
+        # more than ten dynamic fields (field-10 sorts before field-2 as text), up to a few dozen
+        for _ in range(r.choice([11, 12, 23, 34])):
+            e = r.choice(elems)
+            ops.append(['append_pos', 0, e, _elem_value(r, e)])
     for _ in range(r.choice([5, 12, 30])):
         x = r.random()
         e = r.choice(elems)
@@ -373,6 +388,12 @@ class OfRun(object):
             self.o = type(self.schema)()
         self.m = None            # None = schema object, else list of pyvalues / HOLE
         self.frozen = []         # (object, model) pairs that must not move any more
+        if plan.get('start_decoded') is not None:
+            # the history starts from what the DER decoder returned for these members
+            from pyasn1.codec.der import decoder as _ddec
+            init = list(plan['start_decoded'])
+            self.o, _rest = _ddec.decode(_der(self.fresh(init)), asn1Spec=self.schema)
+            self.m = init
 
     # -- model helpers
     def elem_obj(self, pv):
@@ -430,7 +451,10 @@ class OfRun(object):
             try:
                 der = _der(self.fresh(m))
             except Exception as e:
-                der = 'fresh-encode!' + type(e).__name__
+                # the same spelling as _observe_der: a value the encoder refuses (SIZE) must be refused
+                # whatever its history
+                from pyasn1 import error as _error
+                der = 'PyAsn1Error' if isinstance(e, _error.PyAsn1Error) else 'fresh-encode!' + type(e).__name__
         else:
             der = 'not-a-value'
         return (len(m), items, isv, der)
@@ -440,7 +464,7 @@ class OfRun(object):
         want = self.expected(self.m)
         for name, g, w in zip(('len', 'content', 'isValue', 'der'), got, want):
             if g != w:
-                raise Fail('state-differs-from-model:%s' % name, where=where, got=repr(g)[:200], want=repr(w)[:200])
+                raise Fail('state-differs-from-model:%s' % name, where=where, got=U.safe_repr(g, 200), want=U.safe_repr(w, 200))
         for fo, fm in self.frozen:
             if self.observe(fo) != self.expected(fm):
                 raise Fail('clone-source-moved', where=where)
@@ -622,7 +646,8 @@ class OfRun(object):
                 elif k == 'encode':
                     if m is None or holes:
                         return 'skip'
-                    got, want = _der(o), _der(self.fresh(mlist))
+                    # a value the encoder refuses (SIZE) must be refused, with a library error, whatever its history
+                    got, want = _observe_der(o, True), self.expected(mlist)[3]
                 else:
                     got, want = bool(o.isValue), (m is not None and not holes)
             except Fail:
@@ -630,9 +655,9 @@ class OfRun(object):
             except Exception as e:
                 raise Fail('well-formed-reader-raised', exc_cls=type(e).__name__, msg=str(e)[:120])
             if got != want:
-                raise Fail('reader-result-differs-from-model', got=repr(got)[:160], want=repr(want)[:160])
+                raise Fail('reader-result-differs-from-model', got=U.safe_repr(got, 160), want=U.safe_repr(want, 160))
             if self.observe(o) != before:
-                raise Fail('reader-changed-object', before=repr(before)[:200], after=repr(self.observe(o))[:200])
+                raise Fail('reader-changed-object', before=U.safe_repr(before, 200), after=U.safe_repr(self.observe(o), 200))
             return 'read'
         # ---- ill-formed operations: must raise lookup/library error and change nothing
         try:
@@ -657,9 +682,9 @@ class OfRun(object):
             if not ok:
                 raise Fail('ill-formed-op-wrong-exception', exc_cls=type(e).__name__, msg=str(e)[:120])
         else:
-            raise Fail('ill-formed-op-accepted', after=repr(self.observe(o))[:200], before=repr(before)[:200])
+            raise Fail('ill-formed-op-accepted', after=U.safe_repr(self.observe(o), 200), before=U.safe_repr(before, 200))
         if self.observe(o) != before:
-            raise Fail('failed-op-changed-object', before=repr(before)[:200], after=repr(self.observe(o))[:200])
+            raise Fail('failed-op-changed-object', before=U.safe_repr(before, 200), after=U.safe_repr(self.observe(o), 200))
         return 'bad'
 
 
@@ -765,7 +790,10 @@ class RecRun(object):
             try:
                 der = _der(self.fresh(m))
             except Exception as e:
-                der = 'fresh-encode!' + type(e).__name__
+                # the same spelling as _observe_der: a value the encoder refuses (SIZE) must be refused
+                # whatever its history
+                from pyasn1 import error as _error
+                der = 'PyAsn1Error' if isinstance(e, _error.PyAsn1Error) else 'fresh-encode!' + type(e).__name__
         else:
             der = 'not-a-value'
         return (tuple(content), isv, der)
@@ -775,12 +803,12 @@ class RecRun(object):
         want = self.expected_abs(self.m)
         for i, (g, w) in enumerate(zip(got[0], want[0])):
             if g != w:
-                raise Fail('state-differs-from-model:content', where=where, field=self.names[i], got=repr(g)[:160],
-                           want=repr(w)[:160])
+                raise Fail('state-differs-from-model:content', where=where, field=self.names[i], got=U.safe_repr(g, 160),
+                           want=U.safe_repr(w, 160))
         if got[1] != want[1]:
             raise Fail('state-differs-from-model:isValue', where=where, got=got[1], want=want[1])
         if got[2] != want[2]:
-            raise Fail('state-differs-from-model:der', where=where, got=repr(got[2])[:160], want=repr(want[2])[:160])
+            raise Fail('state-differs-from-model:der', where=where, got=U.safe_repr(got[2], 160), want=U.safe_repr(want[2], 160))
         for fo, fm in self.frozen:
             g2, w2 = self.observe_abs(fo), self.expected_abs(fm)
             if g2[1:] != w2[1:]:
@@ -904,10 +932,10 @@ class RecRun(object):
                 else:
                     raise Fail('well-formed-reader-raised', exc_cls=type(e).__name__, msg=str(e)[:120])
             if got != want:
-                raise Fail('reader-result-differs-from-model', got=repr(got)[:160], want=repr(want)[:160])
+                raise Fail('reader-result-differs-from-model', got=U.safe_repr(got, 160), want=U.safe_repr(want, 160))
             if self.observe_abs(o) != before_abs or self.observe_rel(o) != before_rel:
-                raise Fail('reader-changed-object', before=repr(before_abs)[:150] + before_rel[:80],
-                           after=repr(self.observe_abs(o))[:150] + self.observe_rel(o)[:80])
+                raise Fail('reader-changed-object', before=U.safe_repr(before_abs, 150) + before_rel[:80],
+                           after=U.safe_repr(self.observe_abs(o), 150) + self.observe_rel(o)[:80])
             return 'read'
         # ill-formed
         nf = len(self.fields)
@@ -930,10 +958,10 @@ class RecRun(object):
             if not _lib_or_lookup(e):
                 raise Fail('ill-formed-op-wrong-exception', exc_cls=type(e).__name__, msg=str(e)[:120])
         else:
-            raise Fail('ill-formed-op-accepted', before=repr(before_abs)[:160], after=repr(self.observe_abs(o))[:160])
+            raise Fail('ill-formed-op-accepted', before=U.safe_repr(before_abs, 160), after=U.safe_repr(self.observe_abs(o), 160))
         if self.observe_abs(o) != before_abs or self.observe_rel(o) != before_rel:
-            raise Fail('failed-op-changed-object', before=repr(before_abs)[:150] + before_rel[:80],
-                       after=repr(self.observe_abs(o))[:150] + self.observe_rel(o)[:80])
+            raise Fail('failed-op-changed-object', before=U.safe_repr(before_abs, 150) + before_rel[:80],
+                       after=U.safe_repr(self.observe_abs(o), 150) + self.observe_rel(o)[:80])
         return 'bad'
 
 
@@ -992,10 +1020,10 @@ class ChoiceRun(object):
         got, want = self.observe(self.o), self.expected(self.m)
         held = [s for s in got[0] if s is not None and s != 'HOLE']
         if len(held) > 1:
-            raise Fail('choice-holds-more-than-one-alternative', where=where, slots=repr(got[0])[:200])
+            raise Fail('choice-holds-more-than-one-alternative', where=where, slots=U.safe_repr(got[0], 200))
         for name, g, w in zip(('slots', 'isValue', 'der', 'len', 'name'), got, want):
             if g != w:
-                raise Fail('state-differs-from-model:%s' % name, where=where, got=repr(g)[:200], want=repr(w)[:200])
+                raise Fail('state-differs-from-model:%s' % name, where=where, got=U.safe_repr(g, 200), want=U.safe_repr(w, 200))
 
     def step(self, op):
         from pyasn1 import error
@@ -1026,7 +1054,7 @@ class ChoiceRun(object):
                         got = self.observe(o)
                         held = [s for s in got[0] if s is not None and s != 'HOLE']
                         if len(held) > 1:
-                            raise Fail('choice-holds-more-than-one-alternative', slots=repr(got[0])[:200])
+                            raise Fail('choice-holds-more-than-one-alternative', slots=U.safe_repr(got[0], 200))
                         return 'mut'
             except Fail:
                 raise
@@ -1097,9 +1125,9 @@ class ChoiceRun(object):
             except Exception as e:
                 raise Fail('well-formed-reader-raised', exc_cls=type(e).__name__, msg=str(e)[:120])
             if got != want:
-                raise Fail('reader-result-differs-from-model', got=repr(got)[:160], want=repr(want)[:160])
+                raise Fail('reader-result-differs-from-model', got=U.safe_repr(got, 160), want=U.safe_repr(want, 160))
             if self.observe(o) != before:
-                raise Fail('reader-changed-object', before=repr(before)[:200], after=repr(self.observe(o))[:200])
+                raise Fail('reader-changed-object', before=U.safe_repr(before, 200), after=U.safe_repr(self.observe(o), 200))
             return 'read'
         na = len(self.alts)
         try:
@@ -1115,9 +1143,9 @@ class ChoiceRun(object):
             if not _lib_or_lookup(e):
                 raise Fail('ill-formed-op-wrong-exception', exc_cls=type(e).__name__, msg=str(e)[:120])
         else:
-            raise Fail('ill-formed-op-accepted', before=repr(before)[:160], after=repr(self.observe(o))[:160])
+            raise Fail('ill-formed-op-accepted', before=U.safe_repr(before, 160), after=U.safe_repr(self.observe(o), 160))
         if self.observe(o) != before:
-            raise Fail('failed-op-changed-object', before=repr(before)[:200], after=repr(self.observe(o))[:200])
+            raise Fail('failed-op-changed-object', before=U.safe_repr(before, 200), after=U.safe_repr(self.observe(o), 200))
         return 'bad'
 
 
@@ -1173,11 +1201,11 @@ class DynRun(object):
         if self.m is None:
             # a schema object: len()/keys() may either raise the library error or report emptiness
             if got[0] not in ('schema', 0) or got[2] is not False:
-                raise Fail('state-differs-from-model:schema', where=where, got=repr(got)[:200])
+                raise Fail('state-differs-from-model:schema', where=where, got=U.safe_repr(got, 200))
         else:
             for name, g, w in zip(('len', 'content', 'isValue', 'der', 'names'), got, want):
                 if g != w:
-                    raise Fail('state-differs-from-model:%s' % name, where=where, got=repr(g)[:200], want=repr(w)[:200])
+                    raise Fail('state-differs-from-model:%s' % name, where=where, got=U.safe_repr(g, 200), want=U.safe_repr(w, 200))
         for fo, fm in self.frozen:
             if fm is not None and self.observe(fo) != self.expected(fm):
                 raise Fail('clone-source-moved', where=where)
@@ -1249,9 +1277,9 @@ class DynRun(object):
             except Exception as e:
                 raise Fail('well-formed-reader-raised', exc_cls=type(e).__name__, msg=str(e)[:120])
             if got != want:
-                raise Fail('reader-result-differs-from-model', got=repr(got)[:160], want=repr(want)[:160])
+                raise Fail('reader-result-differs-from-model', got=U.safe_repr(got, 160), want=U.safe_repr(want, 160))
             if self.observe(o) != before:
-                raise Fail('reader-changed-object', before=repr(before)[:200], after=repr(self.observe(o))[:200])
+                raise Fail('reader-changed-object', before=U.safe_repr(before, 200), after=U.safe_repr(self.observe(o), 200))
             return 'read'
         try:
             if k == 'set_pos_far':
@@ -1268,9 +1296,9 @@ class DynRun(object):
             if not _lib_or_lookup(e):
                 raise Fail('ill-formed-op-wrong-exception', exc_cls=type(e).__name__, msg=str(e)[:120])
         else:
-            raise Fail('ill-formed-op-accepted', before=repr(before)[:160], after=repr(self.observe(o))[:160])
+            raise Fail('ill-formed-op-accepted', before=U.safe_repr(before, 160), after=U.safe_repr(self.observe(o), 160))
         if self.observe(o) != before:
-            raise Fail('failed-op-changed-object', before=repr(before)[:200], after=repr(self.observe(o))[:200])
+            raise Fail('failed-op-changed-object', before=U.safe_repr(before, 200), after=U.safe_repr(self.observe(o), 200))
         return 'bad'
 
 
@@ -1314,7 +1342,7 @@ class ScalarRun(object):
             return 'bad'
         except Exception as e:
             raise Fail('valueless-scalar-wrong-exception', exc_cls=type(e).__name__, msg=str(e)[:100], type=type(o).__name__)
-        raise Fail('valueless-scalar-returned-data', exc_cls='returned', result=repr(res)[:80], type=type(o).__name__)
+        raise Fail('valueless-scalar-returned-data', exc_cls='returned', result=U.safe_repr(res, 80), type=type(o).__name__)
 
 
 def _default_pv_scalar(d):
